@@ -14,6 +14,7 @@ from fiddle._src import printing
 from fiddle._src import tagging
 from fiddle._src.codegen import legacy_codegen
 from fiddle._src.codegen import new_codegen
+from fiddle._src.codegen.auto_config import experimental_top_level_api as ac_codegen
 from fiddle._src.debug import grep as fdl_grep
 from fiddle._src.experimental import daglish_legacy
 from fiddle._src.experimental import serialization
@@ -94,6 +95,18 @@ APIS = {
     "validation.check_types": lambda c: check_types.get_type_errors(c),
     "validation.no_custom_objects": lambda c: no_custom_objects.get_config_errors(c),
     "validation.baseline_style": lambda c: baseline_style.check_baseline_style(c),
+    "cfg[0]": lambda c: c[0],
+    "cfg[:]": lambda c: c[:],
+    "cfg[-1]": lambda c: c[-1],
+    "getattr(first argument)": lambda c: getattr(c, next(k for k in c.__arguments__ if isinstance(k, str))),
+    "dir": lambda c: dir(c),
+    "ordered_arguments(include_defaults)": lambda c: config_lib.ordered_arguments(c, include_defaults=True,
+                                                                               include_unset=True),
+    "get_callable + signature": lambda c: (config_lib.get_callable(c), c.__signature_info__.signature),
+    "auto_config_codegen": lambda c: ac_codegen.auto_config_codegen(c),
+    "auto_config_codegen(complexity=2)": lambda c: ac_codegen.auto_config_codegen(c, max_expression_complexity=2),
+    "new_codegen(sub_fixtures)": lambda c: new_codegen.new_codegen(c, sub_fixtures={"sub_fx": _first_sub(c)[0]}),
+    "new_codegen(history)": lambda c: new_codegen.new_codegen(c, include_history=True),
     "new_codegen": lambda c: new_codegen.new_codegen(c),
     "legacy_codegen": lambda c: legacy_codegen.codegen_dot_syntax(c).lines(),
     "select iteration": lambda c: list(selectors.select(c, l2.Ka, check_nonempty=False)),
@@ -132,6 +145,9 @@ def gen_config(rng):
                        with_tags=True, p_share=0.5)
   if not isinstance(root, config_lib.Buildable):
     root = fdl.Config(l2.fd, x=root, y="a fairly long string value " * 2)
+  if rng.random() < 0.25:
+    # a Partial without a direct ArgFactory whose nested Partial has one (the codegen lowering pass)
+    root = fdl.Partial(l2.fa, a=fdl.Partial(l2.Ka, p=fdl.ArgFactory(l2.fd, z=1), q=root), b=[root])
   # long values and positional arguments
   for b in c02.reachable(root):
     if isinstance(b, config_lib.Buildable) and rng.random() < 0.3:
